@@ -14,6 +14,7 @@
   cell behaviour (`CellOps`), every key and value.
 -/
 import Proofs.Row
+import Proofs.RowKeeps
 import Proofs.RowTie
 import Proofs.RowTieAll
 
@@ -156,6 +157,30 @@ theorem history_keeps_order (ops : CellOps C V E) (hist : List (RowOp C V)) (r :
   | nil => exact List.prefix_refl _
   | cons op rest ih => exact List.IsPrefix.trans (keys_only_appended ops r op) (ih _)
 
+/-- "…never drops it", map half: a key that has a cell keeps having one after every history —
+    no mutator deletes a map entry, and a failing import or unmarshal keeps what was stored before
+    the error.  Holds for every row, coherent or not, and every cell behaviour. -/
+theorem key_never_lost (ops : CellOps C V E) (hist : List (RowOp C V)) (r : LRow C) (k : Bytes)
+    (h : r.has k = true) : (r.run ops hist).has k = true :=
+  RowKeeps.keeps_run ops hist r k h
+
+/-- "…never moves it", stated on positions: the key at position `i` is still the key at position
+    `i` after every history (so `GetAtIndex(i)` keeps addressing the same key), and — on a coherent
+    row — it still has a cell there. -/
+theorem position_is_stable (ops : CellOps C V E) (hist : List (RowOp C V)) (r : LRow C)
+    (i : Nat) (k : Bytes) (hk : r.l[i]? = some k) :
+    (r.run ops hist).l[i]? = some k ∧ (r.has k = true → (r.run ops hist).has k = true) := by
+  refine ⟨?_, key_never_lost ops hist r k⟩
+  obtain ⟨t, ht⟩ := history_keeps_order ops hist r
+  rw [← ht, List.getElem?_append_left (List.getElem?_eq_some_iff.mp hk).1]
+  exact hk
+
+/-- The row never shrinks: its length after any history is at least what it was. -/
+theorem len_never_decreases (ops : CellOps C V E) (hist : List (RowOp C V)) (r : LRow C) :
+    r.len ≤ (r.run ops hist).len := by
+  obtain ⟨t, ht⟩ := history_keeps_order ops hist r
+  unfold LRow.len; rw [← ht, List.length_append]; omega
+
 /-! Non-vacuity: a concrete history with a replaced key, a positional set outside the range
     (which addresses the empty key) and an unmarshal touching an existing key. -/
 private def demoOps : CellOps Nat Nat Unit :=
@@ -170,6 +195,11 @@ example :
     OMap.run demoOps []
       [.set [97] 1, .set [98] 2, .set [97] 3, .setAt 7 4, .unmarshal [([98], 5), ([99], 6)]]
       = [([97], 3), ([98], 5), ([], 4), ([99], 6)] := by decide
+
+example :
+    (LRow.empty.run demoOps [.set [97] 1, .set [98] 2]).has [97] = true ∧
+    ((LRow.empty.run demoOps [.set [97] 1, .set [98] 2]).run demoOps
+      [.set [97] 3, .setAt 7 4, .unmarshal [([98], 5), ([99], 6)]]).has [97] = true := by decide
 
 /-! ### The row of the model is `row.go` (Proofs/RowTie, Proofs/RowTieAll)
 
